@@ -752,6 +752,7 @@ static inline aligned_t qutil_qsort_inner(struct qutil_qsort_iargs *a)
      * be partitioned correctly */
     {
         size_t leftwall = furthest.leftwall, rightwall = furthest.rightwall;
+        int    pivots_done = 0; /* [rightwall, length) holds only pivots */
 
         while (leftwall < rightwall && array[leftwall] <= pivot) leftwall++;
         while (leftwall < rightwall &&array[rightwall] > pivot) rightwall--;
@@ -772,6 +773,23 @@ static inline aligned_t qutil_qsort_inner(struct qutil_qsort_iargs *a)
         if (array[rightwall] <= pivot) {
             rightwall++;
         }
+        if (rightwall == a->length) {
+            /* nothing is larger than the pivot: the left part would be the whole
+             * segment again (and again).  The pivot is the maximum, so move every
+             * element equal to it to the end, where it is in its final place, and
+             * sort only what is left of them */
+            size_t l = 0;
+
+            while (l < rightwall) {
+                if (array[l] == pivot) {
+                    rightwall--;
+                    SWAP(double, array, l, rightwall);
+                } else {
+                    l++;
+                }
+            }
+            pivots_done = 1;
+        }
         /* now, spawn the next two iterations */
         {
             struct qutil_qsort_iargs na[2];
@@ -786,7 +804,7 @@ static inline aligned_t qutil_qsort_inner(struct qutil_qsort_iargs *a)
                 /* qutil_qsort_inner(na); */
                 qthread_fork((qthread_f)qutil_qsort_inner, na, rets);
             }
-            if ((na[1].length > 0) && (a->length > rightwall)) {
+            if (!pivots_done && (na[1].length > 0) && (a->length > rightwall)) {
                 rets[1] = 0;
                 /* qutil_qsort_inner(na+1); */
                 qthread_fork((qthread_f)qutil_qsort_inner, na + 1, rets + 1);
@@ -1017,6 +1035,7 @@ static inline aligned_t qutil_aligned_qsort_inner(struct qutil_aligned_qsort_iar
      * be partitioned correctly */
     {
         size_t leftwall = furthest.leftwall, rightwall = furthest.rightwall;
+        int    pivots_done = 0; /* [rightwall, length) holds only pivots */
 
         while (leftwall < rightwall && array[leftwall] <= pivot) leftwall++;
         while (leftwall < rightwall &&array[rightwall] > pivot) rightwall--;
@@ -1037,6 +1056,23 @@ static inline aligned_t qutil_aligned_qsort_inner(struct qutil_aligned_qsort_iar
         if (array[rightwall] <= pivot) {
             rightwall++;
         }
+        if (rightwall == a->length) {
+            /* nothing is larger than the pivot: the left part would be the whole
+             * segment again (and again).  The pivot is the maximum, so move every
+             * element equal to it to the end, where it is in its final place, and
+             * sort only what is left of them */
+            size_t l = 0;
+
+            while (l < rightwall) {
+                if (array[l] == pivot) {
+                    rightwall--;
+                    SWAP(aligned_t, array, l, rightwall);
+                } else {
+                    l++;
+                }
+            }
+            pivots_done = 1;
+        }
         /* now, spawn the next two iterations */
         {
             qutil_aligned_qsort_iargs_t na[2];
@@ -1052,7 +1088,7 @@ static inline aligned_t qutil_aligned_qsort_inner(struct qutil_aligned_qsort_iar
                 qthread_fork((qthread_f)qutil_aligned_qsort_inner, &na[0],
                              &rets[0]);
             }
-            if ((na[1].length > 0) && (a->length > rightwall)) {
+            if (!pivots_done && (na[1].length > 0) && (a->length > rightwall)) {
                 rets[1] = 0;
                 /* qutil_aligned_qsort_inner(na+1); */
                 qthread_fork((qthread_f)qutil_aligned_qsort_inner, &na[1],
